@@ -41,6 +41,7 @@ class Transcript:
         self.cl = {}            # pos -> bool
         self.recs = {}          # pos -> [records] (toRecords)
         self.stats = {}         # pos -> (active list, rx)
+        self.parked = {}        # pos -> notes in PARKED_CANCELS
         self.elapsed = {}       # pos -> ns
         self.el = {}            # pos -> did elapsed() return Some
         for i, o in enumerate(outs):
@@ -75,6 +76,7 @@ class Transcript:
                 f = o.split()
                 a = f[1][2:]
                 self.stats[i] = ([] if a == "-" else [tuple(int(x) for x in e.split(":")) for e in a.split(",")], int(f[2][3:]))
+                self.parked[i] = int(f[3][3:]) if len(f) > 3 and f[3].startswith("pc=") else 0
 
     def delivered(self):
         return [(pos, r) for pos, rs in self.reports for r in rs]
@@ -344,8 +346,16 @@ def o_attachments(spec, tr):
                 break
         else:
             if es and bad:
-                out.append("record %r (trace %x): %s" % (r["name"], r["trace"], bad))
+                d23 = any(e.get("nested_same_owner") for e in es)
+                out.append("record %r (trace %x): %s%s" % (r["name"], r["trace"], bad, " [nested local-parent scopes of the same span: D23]" if d23 else ""))
     return out
+
+
+def o_attachments_owner(spec, tr):
+    """the attachments oracle for properties that speak of *where* an attachment lands, not of the order on the record
+    (C04, C10, C13, C14): the order clause of C06 in the one situation where the implementation breaks it (D23, judged
+    and listed under C06) is left out"""
+    return [m for m in o_attachments(spec, tr) if "[nested local-parent scopes of the same span: D23]" not in m]
 
 
 def is_subsequence(a, b):
@@ -418,6 +428,10 @@ def o_retained(spec, tr):
     for a in active:
         if a[0] in open_roots and a[1] != 0 and not spec.cancelable:
             out.append("collector keeps %d buffered span sets for trace %d in the default configuration" % (a[1], a[0]))
+    # a parked-cancel note lives until the commit of its trace is handled: none may be left for a finished trace
+    open_cancelled = sum(1 for t in spec.traces.values() if t["cancelled"] and t["commit_pos"] is None)
+    if tr.parked.get(pos, 0) > open_cancelled:
+        out.append("collector keeps %d parked-cancel notes; %d cancelled traces are still open" % (tr.parked.get(pos, 0), open_cancelled))
     live = sum(1 for th in spec.threads.values() if th["alive"] and th["touched"])
     if rx != live:
         out.append("%d receivers registered, %d live threads have used their queue" % (rx, live))
@@ -562,4 +576,4 @@ def o_times(spec, tr, times):
 
 
 ALL = {"idsweep": o_idsweep, "no_panic": o_no_panic, "ids": o_ids, "tree": o_tree, "exactly_once": o_exactly_once, "attachments": o_attachments,
-       "contexts": o_contexts, "closures": o_closures, "retained": o_retained, "copies": o_copies, "omission_only": o_omission_only}
+       "contexts": o_contexts, "closures": o_closures, "retained": o_retained, "copies": o_copies, "omission_only": o_omission_only, "attachments_owner": o_attachments_owner}
